@@ -6,13 +6,14 @@ mcDocs == {d \in [Paths -> mcVals \cup {Absent, "null", "\"a much longer string 
              /\ d["a"] \in {"1", "\"s\"", "\"a much longer string value\""}
              /\ d["b"] \in {"true", Absent, "2.5"}
              /\ d["n.x"] \in {"1", "null"}
-             /\ d["n.y"] \in {"\"s\""}
+             /\ d["n.xy"] \in {"\"s\""}
              /\ d["l.0"] \in {"1", "\"s\""}
              /\ d["l.1"] \in {"true"}}
 M(m, name, p, ph, eomp, t, err) == [m |-> m, name |-> name, p |-> p, ph |-> ph, eomp |-> eomp, t |-> t, err |-> err]
 mcMatchers ==
   { M("any", "Any", "a", "\"<Any value>\"", TRUE, "", FALSE),
     M("any", "Any", "n.x", "\"x\"", TRUE, "", FALSE),
+    M("any", "Any", "n.xy", "\"x\"", TRUE, "", FALSE),
     M("any", "Any", "b", "12345", TRUE, "", FALSE),
     M("any", "Any", "b", "\"<Any value>\"", FALSE, "", FALSE),
     M("any", "Any", "l.0", "null", TRUE, "", FALSE),
